@@ -23,8 +23,26 @@ def check_pass_through(ctx):
         f = c.methods.get('__call__')
         if f is None:
             continue
-        calls = [x for x in walk_no_nested(f.node) if isinstance(x, ast.Call)
-                 and is_check_call(prog, f.module, x)]
+        # nested evaluations as they happen on the paths of __call__ (module
+        # helpers inlined, functools.partial applications spelled out)
+        from ..dte import inline_helpers
+        t = Table(prog, f, inline=inline_helpers(
+            prog, modules={CHECKS}, exclude={CHECKS + '._check'}),
+            max_depth=3)
+        calls = []
+        seen = set()
+        for p in t.paths:
+            for ev in p.events:
+                if ev.kind not in ('call', 'maycall') or not isinstance(
+                        ev.node, ast.Call):
+                    continue
+                x = t.expand(ev.node)
+                if not is_check_call(prog, t.module_of(ev.frame), x):
+                    continue
+                k = (ev.line, U(x))
+                if k not in seen:
+                    seen.add(k)
+                    calls.append(x)
         if not calls:
             continue
         prm = f.params[1:]
@@ -39,7 +57,9 @@ def check_pass_through(ctx):
                     bad.append('%s <- %s (expected own parameter %s)' % (
                         role, U(got) if got is not None else 'missing',
                         want))
-            ctx.ob('C06.PASS-THROUGH', not bad, ctx.where(f.module, call),
+            ctx.ob('C06.PASS-THROUGH', not bad, ctx.where(f.module, call)
+                   if hasattr(call, 'lineno') else ctx.where(f.module,
+                                                             f.node),
                    f.qual, U(call),
                    'nested evaluation receives target, credentials, enforcer '
                    'and current rule name unchanged' if not bad else
